@@ -1249,7 +1249,10 @@ func (d *Driver) Exec(opName string, a M) M {
 		out["class"] = "noop"
 		d.Store.Lock()
 		if c, ok := d.Store.Clients[S(a, "client")]; ok {
-			c.Grants = slices.DeleteFunc(slices.Clone(c.Grants), func(g string) bool { return g == S(a, "grant") })
+			// the registration is REPLACED by a new record (as a storage backed by a database does), not edited in place
+			nc := *c
+			nc.Grants = slices.DeleteFunc(slices.Clone(c.Grants), func(g string) bool { return g == S(a, "grant") })
+			d.Store.Clients[S(a, "client")] = &nc
 			out["class"] = "ok"
 		}
 		d.Store.Unlock()
